@@ -181,12 +181,12 @@ Definition round_us (n : nat) (x : Z) : Z := let q := frac_unit n in ((x + q / 2
 
 (* DATE: ConvertToTime truncates to the day, appendDateFormat *)
 Definition date_sql_text (x : Z) : option bytes :=
-  if x =? zero_time_us then Some zero_date_text
-  else let day := x / us_per_day in
-       let '(y, m, d) := civil_from_days day in
+  let day := x / us_per_day in
+  if day * us_per_day =? zero_time_us then Some zero_date_text     (* truncated to the day first, then ZeroTime? *)
+  else let '(y, m, d) := civil_from_days day in
        if (y <? 0) || (9999 <? y) then None else Some (civil_text (y, m, d)).
 (* ConvertToTime range check: year 0..9999; but a DATETIME(6) type is == DatetimeMaxRange and is checked by
-   ValidateTime instead: ZeroTime <= t <= 9999-12-31 23:59:59.999999 (which admits the last month of year -1) *)
+   ValidateTime instead: ZeroTime <= t <= 9999-12-31 23:59:59.999999 (which lets in the last month of year -1) *)
 Definition max_time_us : Z := days_from_civil (9999, 12, 31) * us_per_day + (us_per_day - 1).
 Definition datetime_range_ok (n : nat) (x : Z) : bool :=
   if Nat.eqb n 6 then (zero_time_us <=? x) && (x <=? max_time_us)
